@@ -2,7 +2,7 @@
    all the assumed raft safety properties), with at most a minority of nodes down at every step. Witnesses closed by
    vm_compute. Each defect was first reproduced on the real code by the harness (see props/C05/NOTES.md). *)
 From Coq Require Import List Arith NArith ZArith Bool Lia.
-From OG Require Import C05.Model C05.Trunc C05.Catchup C05.ReadPath.
+From OG Require Import C05.Model C05.Trunc C05.Catchup C05.ReadPath C05.RestartRace.
 Import ListNotations.
 
 (* every prefix of the trace keeps a majority available *)
@@ -188,3 +188,17 @@ Theorem master_elected_before_catch_up_refuted :
     elect_today s = Some (nm, ps') /\ avail (nodes s nm) = true /\ caught_up s nm = false /\
     read s nm 1%N = Some 10%Z /\ get (ents_store (glog s)) 1%N = Some 11%Z.
 Proof. exists lagmaster_trace. eexists. exists 1, [0; 2]. vm_compute. repeat split. left; reflexivity. Qed.
+
+(* (9) today the restart replay is not ordered before the entries raft publishes after the restart (startRaftNode starts
+   the commit reader, Assign runs the replay later): a member killed with entry 1 applied ((1,10)), entry 2 = the
+   acknowledged overwrite (1,11) committed while it was down. If entry 2 is applied first and the replay of entry 1
+   lands on top, the member counts both entries as applied and answers 10 for good. *)
+Definition race_node : node :=
+  mkNode false false [EData 0 1%N [(1%N, 10%Z)]; EData 0 2%N [(1%N, 11%Z)]] 0 1 0 [(1%N, 10%Z)] [] [] 0 0 [] [] false [] 0%N.
+
+Theorem replay_after_newer_entries_refuted :
+  exists c n x es, applied (apply_then_replay c n x es) = 2 /\
+    get (view (apply_then_replay c n x es)) 1%N = Some 10%Z /\
+    get (ents_store (firstn 2 (elog x))) 1%N = Some 11%Z /\
+    get (view (replay_then_apply c n x es)) 1%N = Some 11%Z.
+Proof. exists (cfg_today 3 2), 1, race_node, [EData 0 2%N [(1%N, 11%Z)]]. vm_compute. repeat split. Qed.
